@@ -2,7 +2,7 @@
 pub use crate::atoms::{self, Atom};
 pub use crate::eng::{self, Tier, Tri};
 pub use crate::explore::{explore, PathInfo};
-pub use crate::rng::{SeedRng, ZeroWindowRng};
+pub use crate::rng::{OnDemandZeroRng, SeedRng, ZeroWindowRng};
 pub use bls12_381::fq::{self, U256};
 pub use bls12_381::symex::{self as sx, DrawMode, Node, Tid, F};
 pub use bls12_381::{G1Affine, G1Projective, G2Affine, G2Projective, Gt, Scalar};
